@@ -3,45 +3,7 @@
 import json, os, subprocess
 HERE = os.path.dirname(os.path.dirname(os.path.abspath(__file__)))
 
-CHECKS = {
- "C04": dict(
-   technique="TLA+ spec (InjectionTracker.tla: Spec layer Ideal/IdealOrig + transcribed Algo layer) model-checked by TLC; "
-             "B1 replay of every edge of the bounded model into the real InjectionTracker with all constrained IDs queried; "
-             "B2 TLC trace validation of random walks (windows 3, 5, 10000)",
-   text="TLC exhausts all interleavings of send/out-of-order send/inject up to the depth bound with small windows (eviction reached) and checks "
-        "injectivity, order, stability, inverse and freshness on the transcribed algorithm; every edge of that graph is replayed into the real "
-        "tracker and every ID's forward/backward translation compared with the specification's answer, so the code is bound to the checked design.",
-   note="Trusted: the projection (Send = get_effective_id + track_seen as prepare_message does), TLC, the environment assumption CanSend (IDs within a window of the frontier, no wrap-around).",
-   ref="6/C04"),
- "C03": dict(
-   technique="TLA+ format spec (ZeroCode.tla: closed-form Encode, reference Decode, cap law) + encoder/decoder machines model-checked by TLC "
-             "against it; B3 replay of every TLC-printed table row (all strings over {00,01,FF} up to the bound, all encoded strings over "
-             "{00,01,02,FF}, all zero runs 0..1100 x 16 contexts) through the real functions; TLC re-computation of recorded random/adversarial calls",
-   text="TLC checks round-trip, canonicity, no-wrap and the 2x bound in every state of the byte-fed encoder machine and the cap law on the decoder machine; "
-        "each enumerated input and its TLC-computed encoding is replayed through zero_code_compress/zero_code_expand, and recorded calls on random, long and "
-        "adversarial (wrap-form, trailing-zero, around-the-cap) inputs are re-computed by TLC, so both directions of the format are bound to the spec.",
-   note="Trusted: TLC, the run-length projection to_rl, the refusal window (must decode <= 0x3000, must refuse > 0x3000+256).",
-   ref="6/C03"),
- "C05": dict(
-   technique="TLA+ spec (ProxiedCircuit.tla: both directions, appended/PacketAck acks, forward/drop, injections, resend clock; invariants Truthful, "
-             "NoInjectedAckLeaks, CompletionExact, ResendOnlyPending) model-checked by TLC; B1 replay of every edge of the exhaustive bounded graph and of "
-             "TLC-simulated deep behaviours through the real InterceptingLLUDPProxyProtocol.handle_proxied_packet + ProxiedCircuit with a virtual clock",
-   text="TLC enumerates every interleaving of viewer/simulator packets (reliable or not, resent, acks in either form), proxy drops, proxy injections and clock ticks "
-        "up to the depth bound and checks ack truthfulness against ghost ground truth and the completion/resend rules; every edge (and every step of sampled deeper "
-        "behaviours incl. the full 10-try retry budget) is executed on the real proxy objects and the emitted datagrams, future states and message flags compared with the model.",
-   note="Trusted: TLC, the datagram projection (real deserializer), the virtual clock shim, the scripted drop addon; tracker eviction is out of scope here (C04).",
-   ref="6/C05"),
- "C07": dict(
-   technique="TLA+ spec (AddonDispatch.tla: one message through every hook point, ownership machine fresh/queued/sent/dropped, every assignment of "
-             "hook behaviours as initial states; invariants AtMostOnce, ExactlyOnceUnlessClaimed, NoResurrection, Isolation, Bookkeeping) model-checked by TLC; "
-             "B1 replay of every configuration's terminal observation through the real proxy with scripted addons/subscribers, plus a follow-up message",
-   text="TLC enumerates every assignment of behaviours (return falsy/truthy, raise, take, take+send copy, drop, send, double operations, mutate) to the packet- and "
-        "message-level hooks of up to three addons and to session/region subscribers, for both directions, reliability and command-channel chat, and checks the "
-        "at-most-once / exactly-once-unless-claimed / no-resurrection / isolation invariants on the pipeline model; each configuration is executed on the real "
-        "InterceptingLLUDPProxyProtocol and the wire emissions, refused operations, invoked hooks, logging and final ownership are compared with the model.",
-   note="Trusted: TLC, the scripted addon vocabulary (take/send/drop/mutate/return/raise), content-marker classification of emissions; hooks invoked beyond the model's set are tolerated.",
-   ref="6/C07"),
-}
+CHECKS = json.load(open(os.path.join(HERE, "tools", "checks.json")))
 
 PENDING = {}
 for i in range(1, 21):
